@@ -89,7 +89,13 @@ Definition read (st : state) (md : mode) (rq : readreq) : robs :=
   | RVar k => read_var st md rns k
   | RBuiltin => OBuiltin
   | RPrivate => OErr E_PRIVATE
-  | RUnresolved => OErr E_UNRESOLVED
+  | RUnresolved =>
+      (* analyzer.py:3857 `assert munged not in vars(current_ns.module)` with
+         munged = munge(name, allow_builtins=True), reached by bare symbols without '.' *)
+      match spl with
+      | Bare n => if negb (has_dot n) && ahas (rns, munge_ab n) (mods st) then OErr E_ASSERT else OErr E_UNRESOLVED
+      | Qual _ _ => OErr E_UNRESOLVED
+      end
   end.
 
 (** ---- the executable guard of the partial theorems ----
